@@ -10,7 +10,15 @@ import NeumannModel.Blob.Model
   Mirrors: `BlobWriter::store_chunk` (exists → put | exists → get → put),
   `finish` (put meta), `delete_artifact` (get meta → (get → put)* → delete meta),
   `gc_cycle` (scan → (get → delete?)*), `full_gc` (scan meta → get* → scan chunks → (get → delete)*).
-  Not modelled: preemption inside a single `TensorStore` call, `repair` as a thread.
+  `TensorStore::scan` collects the keys through a randomly seeded hash set, so the order of a scan result
+  is arbitrary: every scanning thread carries an order hint `ord` and sees `orderBy ord keys` (the hinted
+  keys that are present, in hint order, then the remaining keys in table order).  The theorems quantify over
+  all hints; the correspondence run passes the order the real scan produced.
+  A few transitions make no store call (`silent`: loop exits, keys `full_gc` skips because they are
+  referenced); `runCalls` is the call-level scheduler — one schedule entry = one `TensorStore` call, the
+  granularity of the yield-point hook — and `runCalls_refines` shows each of its runs is a `runSched` run.
+  Not modelled: preemption inside a single `TensorStore` call, `repair` as a thread, the secondary-index
+  keys (`_blob:idx:*`) a writer / deleter also touches (no operation of the property reads them).
 -/
 namespace Neumann.Blob
 
@@ -19,6 +27,10 @@ def setRec {α β : Type} [DecidableEq α] (k : α) (v : β) (l : List (α × β
   match find k l with
   | some _ => modify k (fun _ => v) l
   | none => l ++ [(k, v)]
+
+/-- result order of a `scan`: hinted keys that are present first (hint order), then the rest (table order) -/
+def orderBy {α : Type} [DecidableEq α] (ord ks : List α) : List α :=
+  ord.filter (fun k => ks.contains k) ++ ks.filter (fun k => !ord.contains k)
 
 inductive Th (K : Type)
   | done
@@ -32,13 +44,13 @@ inductive Th (K : Type)
   | dDecGet (id : Nat) (todo : List K)
   | dDecPut (id : Nat) (k : K) (todo : List K) (r : CRec)
   -- gc_cycle
-  | gScan (mc : Nat)
+  | gScan (mc : Nat) (ord : List K)
   | gGet (mc : Nat) (todo : List K)
   | gDel (mc : Nat) (k : K) (todo : List K)
   -- full_gc
-  | fScanMeta
-  | fGetMeta (ids : List Nat) (refd : List K)
-  | fScanChunks (refd : List K)
+  | fScanMeta (ordI : List Nat) (ordK : List K)
+  | fGetMeta (ids : List Nat) (refd : List K) (ordK : List K)
+  | fScanChunks (refd : List K) (ordK : List K)
   | fGet (refd : List K) (todo : List K)
   | fDel (k : K) (refd : List K) (todo : List K)
   deriving DecidableEq, Repr
@@ -51,8 +63,8 @@ def Th.isDone {K : Type} : Th K → Bool
 def Th.isStart {K : Type} [DecidableEq K] : Th K → Bool
   | .wExists _ _ all todo [] => decide (all = todo.flatten)
   | .dGetMeta _ => true
-  | .gScan _ => true
-  | .fScanMeta => true
+  | .gScan _ _ => true
+  | .fScanMeta _ _ => true
   | _ => false
 
 section
@@ -61,8 +73,8 @@ variable {K : Type} [DecidableEq K] (h : List Nat → K)
 /-- a writer of the chunk datas `cds` (already cut by the writer's buffer logic) -/
 def Th.writer (id t : Nat) (cds : List (List Nat)) : Th K := .wExists id t cds.flatten cds []
 def Th.deleter (id : Nat) : Th K := .dGetMeta id
-def Th.gc (minCreated : Nat) : Th K := .gScan minCreated
-def Th.fullGc : Th K := .fScanMeta
+def Th.gc (minCreated : Nat) : Th K := .gScan minCreated []
+def Th.fullGc : Th K := .fScanMeta [] []
 
 /-- one atomic store step of one thread -/
 def stepTh (s : State K) : Th K → State K × Th K
@@ -92,20 +104,20 @@ def stepTh (s : State K) : Th K → State K × Th K
       | some r => (s, .dDecPut id k todo r)
   | .dDecPut id k todo r =>
       ({ s with chunks := setRec k { r with refs := r.refs - 1 } s.chunks }, .dDecGet id todo)
-  | .gScan mc => (s, .gGet mc (s.chunks.map (·.1)))
+  | .gScan mc ord => (s, .gGet mc (orderBy ord (s.chunks.map (·.1))))
   | .gGet _ [] => (s, .done)
   | .gGet mc (k :: todo) =>
       match find k s.chunks with
       | none => (s, .gGet mc todo)
       | some r => if r.refs = 0 ∧ r.created < mc then (s, .gDel mc k todo) else (s, .gGet mc todo)
   | .gDel mc k todo => ({ s with chunks := erase k s.chunks }, .gGet mc todo)
-  | .fScanMeta => (s, .fGetMeta (s.arts.map (·.1)) [])
-  | .fGetMeta [] refd => (s, .fScanChunks refd)
-  | .fGetMeta (id :: ids) refd =>
+  | .fScanMeta ordI ordK => (s, .fGetMeta (orderBy ordI (s.arts.map (·.1))) [] ordK)
+  | .fGetMeta [] refd ordK => (s, .fScanChunks refd ordK)
+  | .fGetMeta (id :: ids) refd ordK =>
       match find id s.arts with
-      | none => (s, .fGetMeta ids refd)
-      | some a => (s, .fGetMeta ids (refd ++ a.chunks))
-  | .fScanChunks refd => (s, .fGet refd (s.chunks.map (·.1)))
+      | none => (s, .fGetMeta ids refd ordK)
+      | some a => (s, .fGetMeta ids (refd ++ a.chunks) ordK)
+  | .fScanChunks refd ordK => (s, .fGet refd (orderBy ordK (s.chunks.map (·.1))))
   | .fGet _ [] => (s, .done)
   | .fGet refd (k :: todo) =>
       if refd.contains k then (s, .fGet refd todo)
@@ -123,6 +135,65 @@ def stepAt (s : State K) (ths : List (Th K)) (i : Nat) : State K × List (Th K) 
 def runSched (s : State K) (ths : List (Th K)) : List Nat → State K × List (Th K)
   | [] => (s, ths)
   | i :: sc => runSched (stepAt h s ths i).1 (stepAt h s ths i).2 sc
+
+/-! ### call-level view: one schedule entry = one `TensorStore` call -/
+
+/-- the `TensorStore` call a thread is about to make -/
+inductive Call (K : Type)
+  | existsC (k : K) | getC (k : K) | putC (k : K) | delC (k : K)
+  | getM (id : Nat) | putM (id : Nat) | delM (id : Nat)
+  | scanC | scanM
+  deriving DecidableEq, Repr
+
+/-- `none`: finished, or the next transition is silent (no store call) -/
+def Th.call : Th K → Option (Call K)
+  | .done => none
+  | .wExists id _ _ [] _ => some (.putM id)
+  | .wExists _ _ _ (d :: _) _ => some (.existsC (h d))
+  | .wPutNew _ _ _ d _ _ => some (.putC (h d))
+  | .wIncGet _ _ _ d _ _ => some (.getC (h d))
+  | .wIncPut _ _ _ d _ _ _ => some (.putC (h d))
+  | .dGetMeta id => some (.getM id)
+  | .dDecGet id [] => some (.delM id)
+  | .dDecGet _ (k :: _) => some (.getC k)
+  | .dDecPut _ k _ _ => some (.putC k)
+  | .gScan _ _ => some .scanC
+  | .gGet _ [] => none
+  | .gGet _ (k :: _) => some (.getC k)
+  | .gDel _ k _ => some (.delC k)
+  | .fScanMeta _ _ => some .scanM
+  | .fGetMeta [] _ _ => none
+  | .fGetMeta (id :: _) _ _ => some (.getM id)
+  | .fScanChunks _ _ => some .scanC
+  | .fGet _ [] => none
+  | .fGet refd (k :: _) => if refd.contains k then none else some (.getC k)
+  | .fDel k _ _ => some (.delC k)
+
+/-- run the silent transitions (loop exits; keys `full_gc` skips because they are referenced) -/
+def settle : Th K → Th K
+  | .gGet _ [] => .done
+  | .fGetMeta [] refd ordK => .fScanChunks refd ordK
+  | .fGet refd todo =>
+      match todo.dropWhile (fun k => refd.contains k) with
+      | [] => .done
+      | l => .fGet refd l
+  | th => th
+
+/-- thread `i` makes its next store call, then runs on to the entry of the following one -/
+def callAt (s : State K) (ths : List (Th K)) (i : Nat) : State K × List (Th K) :=
+  match ths[i]? with
+  | none => (s, ths)
+  | some th => ((stepTh h s th).1, ths.set i (settle (stepTh h s th).2))
+
+/-- the call-level scheduler; the threads are expected settled (`ths.map settle`) -/
+def runCalls (s : State K) (ths : List (Th K)) : List Nat → State K × List (Th K)
+  | [] => (s, ths)
+  | i :: sc => runCalls (callAt h s ths i).1 (callAt h s ths i).2 sc
+
+/-- the calls a call-level run makes, in order (what the yield-point trace of the real threads shows) -/
+def callTrace (s : State K) (ths : List (Th K)) : List Nat → List (Option (Call K))
+  | [] => []
+  | i :: sc => ((ths[i]?).bind (Th.call h)) :: callTrace (callAt h s ths i).1 (callAt h s ths i).2 sc
 
 end
 
